@@ -54,6 +54,11 @@ pub struct Layout {
     /// offset, shorter length) instead of getting bytes of its own
     #[serde(default)]
     pub overlap_prefixes: bool,
+    /// 0: directories hold either tile entries or leaf pointers; otherwise a seed deciding which leaves are
+    /// dissolved into their parent directory, so that one directory mixes tile entries and leaf pointers (the
+    /// specification's lookup treats every entry on its own, and writers that keep low zooms in the root do this)
+    #[serde(default)]
+    pub inline: u32,
 }
 
 /// Hostile edits applied while assembling (C08): varint values of chosen directories, header
@@ -111,6 +116,8 @@ pub struct Facts {
     pub prefix_overlap: bool,
     pub gap_after_dir: bool,
     pub empty_meta: bool,
+    /// some directory holds both tile entries and leaf pointers
+    pub mixed: bool,
 }
 
 #[derive(Clone, Debug)]
@@ -194,10 +201,13 @@ fn tree(l: &Layout, tile_entries: &[SEntry], depth: u8, fan1: usize, fan2: usize
     }
     // level-2 (bottom) leaves hold tile entries
     let bottom: Vec<Vec<SEntry>> = tile_entries.chunks(fan1.max(1)).map(<[SEntry]>::to_vec).collect();
+    let n_bottom = bottom.len();
+    // which leaves are dissolved into their parent (mixed directories)
+    let dissolve = |k: u64| l.inline != 0 && crate::engine::Sm(u64::from(l.inline) ^ k.wrapping_mul(0x9e37_79b9_7f4a_7c15)).below(3) == 0;
+    let inlined: Vec<bool> = (0..n_bottom).map(|i| dissolve(i as u64)).collect();
     // Leaves are placed in the leaf section; pointer entries need final offsets, so blobs for the
     // bottom level are laid out first, then (depth 3) the middle level that points at them.
-    let mut blobs: Vec<(Vec<SEntry>, Vec<u8>)> = bottom.iter().map(|es| (es.clone(), enc(l, es))).collect();
-    let n_bottom = blobs.len();
+    let mut blobs: Vec<Option<(Vec<SEntry>, Vec<u8>)>> = bottom.iter().enumerate().map(|(i, es)| if inlined[i] { None } else { Some((es.clone(), enc(l, es))) }).collect();
     // storage order of the bottom leaves
     let mut order: Vec<usize> = (0..n_bottom).collect();
     if l.leaf_shuffle != 0 {
@@ -210,40 +220,56 @@ fn tree(l: &Layout, tile_entries: &[SEntry], depth: u8, fan1: usize, fan2: usize
     let mut section: Vec<u8> = Vec::new();
     let mut place: Vec<(u64, u32)> = vec![(0, 0); n_bottom];
     for (k, &i) in order.iter().enumerate() {
+        let Some((_, blob)) = &blobs[i] else { continue };
         if l.leaf_gap > 0 {
             section.extend_from_slice(&junk(usize::from(l.leaf_gap), k as u64));
         }
-        place[i] = (section.len() as u64, blobs[i].1.len() as u32);
-        section.extend_from_slice(&blobs[i].1);
+        place[i] = (section.len() as u64, blob.len() as u32);
+        section.extend_from_slice(blob);
     }
-    let ptrs: Vec<SEntry> = (0..n_bottom).map(|i| SEntry { id: bottom[i][0].id, off: place[i].0, len: place[i].1, run: 0 }).collect();
+    // what the parent directory holds for each bottom chunk: one pointer, or the chunk's tile entries themselves
+    let items: Vec<Vec<SEntry>> = (0..n_bottom).map(|i| if inlined[i] { bottom[i].clone() } else { vec![SEntry { id: bottom[i][0].id, off: place[i].0, len: place[i].1, run: 0 }] }).collect();
     if depth == 2 {
-        return Tree { root: ptrs, leaves: blobs, place, leaf_section: section, depth: 2 };
+        let mut leaves = Vec::new();
+        let mut pl = Vec::new();
+        for i in 0..n_bottom {
+            if let Some(b) = blobs[i].take() {
+                leaves.push(b);
+                pl.push(place[i]);
+            }
+        }
+        return Tree { root: items.concat(), leaves, place: pl, leaf_section: section, depth: 2 };
     }
-    // depth 3: middle leaves hold pointers to bottom leaves
-    let middle: Vec<Vec<SEntry>> = ptrs.chunks(fan2.max(1)).map(<[SEntry]>::to_vec).collect();
-    let mut mid_ptrs = Vec::new();
+    // depth 3: middle leaves hold pointers to bottom leaves (and the entries of dissolved bottom leaves)
+    let mut root = Vec::new();
     let mut all: Vec<(Vec<SEntry>, Vec<u8>)> = Vec::new();
     let mut all_place: Vec<(u64, u32)> = Vec::new();
     // walk order: middle leaf, then its bottom leaves
     let mut bi = 0usize;
-    for (k, m) in middle.iter().enumerate() {
-        let blob = enc(l, m);
-        if l.leaf_gap > 0 {
-            section.extend_from_slice(&junk(usize::from(l.leaf_gap), 1000 + k as u64));
+    for (k, group) in items.chunks(fan2.max(1)).enumerate() {
+        let m: Vec<SEntry> = group.concat();
+        if dissolve(1_000_000 + k as u64) {
+            root.extend(m.iter().copied());
+        } else {
+            let blob = enc(l, &m);
+            if l.leaf_gap > 0 {
+                section.extend_from_slice(&junk(usize::from(l.leaf_gap), 1000 + k as u64));
+            }
+            let off = section.len() as u64;
+            section.extend_from_slice(&blob);
+            root.push(SEntry { id: m[0].id, off, len: blob.len() as u32, run: 0 });
+            all.push((m.clone(), blob.clone()));
+            all_place.push((off, blob.len() as u32));
         }
-        let off = section.len() as u64;
-        section.extend_from_slice(&blob);
-        mid_ptrs.push(SEntry { id: m[0].id, off, len: blob.len() as u32, run: 0 });
-        all.push((m.clone(), blob.clone()));
-        all_place.push((off, blob.len() as u32));
-        for _ in 0..m.len() {
-            all.push(std::mem::take(&mut blobs[bi]));
-            all_place.push(place[bi]);
+        for _ in 0..group.len() {
+            if let Some(b) = blobs[bi].take() {
+                all.push(b);
+                all_place.push(place[bi]);
+            }
             bi += 1;
         }
     }
-    Tree { root: mid_ptrs, leaves: all, place: all_place, leaf_section: section, depth: 3 }
+    Tree { root, leaves: all, place: all_place, leaf_section: section, depth: 3 }
 }
 
 pub fn build(l: &Layout) -> Built {
@@ -409,7 +435,15 @@ fn build_plain(l: &Layout) -> Built {
     let mut t = tree(l, &tile_entries, depth, fan1, fan2);
     let mut root_blob = enc(l, &t.root);
     let mut guard = 0;
+    let mut plain;
+    let mut l = l;
     while root_blob.len() > 12_000 && guard < 40 {
+        if l.inline != 0 && guard >= 3 {
+            // dissolved leaves make the root grow with the fan-out: keep the tree pure instead
+            plain = l.clone();
+            plain.inline = 0;
+            l = &plain;
+        }
         if depth < 2 {
             depth = 2;
             fan1 = fan1.max(32);
@@ -545,6 +579,7 @@ fn build_plain(l: &Layout) -> Built {
             l.gaps[pos_root + 1] > 0 || (t.depth > 1 && l.gaps[pos_leaf + 1] > 0)
         },
         empty_meta: l.meta.is_none(),
+        mixed: dirs.iter().any(|d| d.entries.iter().any(|e| e.run == 0) && d.entries.iter().any(|e| e.run > 0)),
     };
     Built { bytes, header, expected, tile_entries, dirs, facts, steer, metadata }
 }
